@@ -98,10 +98,51 @@ func verifC16WaitTimeoutDelegates() {
 	t := verifNondetU64("timeout")
 	verifWTCalls = 0
 	mu.Lock()
-	WaitTimeout(c, t)
+	// nobody signals: the call must come back (through the timeout) for every timeout value
+	dead := verifDeadlocks(func() { WaitTimeout(c, t) })
+	verifAssert("waittimeout/returns-without-signal", !dead)
+	if verifWTCalls == 0 {
+		// an implementation that does not delegate to the primitive package is judged by its behaviour only
+		verifCover("c16/waittimeout/not-delegating")
+		return
+	}
 	verifAssert("waittimeout/delegates-once", verifWTCalls == 1)
 	verifAssert("waittimeout/same-cond", verifWTCond == c)
 	verifAssert("waittimeout/unscaled-timeout", verifWTTimeout == t)
 	mu.Unlock()
 	verifCover("c16/waittimeout/delegate")
+}
+
+// The real body (no stub) under the scheduler: timers fire at a nondeterministic but eventual moment.
+// (a) no signaller, another goroutine already waiting on the same cond: the caller still returns,
+// holding the lock; (b) with a signaller it returns holding the lock on every schedule.
+func verifC16WaitTimeoutReal() {
+	mu := new(sync.Mutex)
+	c := sync.NewCond(mu)
+	t := verifNondetU64("timeout")
+	scenario := verifChoose(3)
+	if scenario == 1 { // an earlier waiter on the same condition variable
+		go func() {
+			mu.Lock()
+			c.Wait()
+			mu.Unlock()
+		}()
+		verifYield()
+	}
+	if scenario == 2 { // a signaller
+		go func() {
+			mu.Lock()
+			c.Signal()
+			mu.Unlock()
+		}()
+	}
+	mu.Lock()
+	dead := verifDeadlocks(func() { WaitTimeout(c, t) })
+	verifAssert("waittimeout-real/returns", !dead)
+	if !dead {
+		// the caller holds the lock again: TryLock must fail, Unlock must succeed
+		verifAssert("waittimeout-real/lock-held-on-return", !mu.TryLock())
+		mu.Unlock()
+	}
+	verifCover("c16/waittimeout/real")
 }
